@@ -50,7 +50,8 @@ type c02Fail struct {
 	observed, expected  string
 	from                string
 	sweep               bool
-	prefixLen           int // (d): the prefix length, else -1
+	prefixLen           int    // (d): the prefix length, else -1
+	ops                 string // (e): the operations of a stream history
 }
 
 type c02Runner struct {
@@ -272,6 +273,9 @@ func runC02(c *lib.Ctx) {
 		r.checkCase(cs, plans, prefixModel[cs], ci%(len(cases)/10+1) == 0 && !cs.huge)
 	}
 
+	// --- (e) histories mixing cl:read with character level operations on one stream
+	c02Histories(c, r, cases[nSweep:])
+
 	// --- signatures need the lexer mode at the cut: ask the model
 	var modeReqs []string
 	for _, f := range r.fails {
@@ -288,7 +292,7 @@ func runC02(c *lib.Ctx) {
 		rep := map[string]any{
 			"entry": f.entry,
 			"input": map[string]any{"text": string(f.text), "text_hex": c02Hex(f.text), "cuts": f.plan.Cuts, "eof_with_last": f.plan.EofWith, "zero_reads": f.plan.Zero,
-				"read_base": f.cfg.Base, "float_format": f.cfg.Sym},
+				"read_base": f.cfg.Base, "float_format": f.cfg.Sym, "ops": f.ops},
 			"observed": f.observed, "expected": f.expected, "expected_from": f.from,
 			"relies_on": []string{"SlipVerif.Theorems.C02.blocks_refine_bytes", "SlipVerif.Theorems.C02.chunk_invariance_spec"},
 		}
@@ -686,6 +690,21 @@ func c02Replay(c *lib.Ctx) {
 	fmt.Printf("  recorded observed   : %v\n  recorded expected   : %v (%v)\n", rec["observed"], rec["expected"], rec["expected_from"])
 	wantEntry := entry
 	switch {
+	case strings.HasPrefix(entry, "history("):
+		kind := strings.TrimSuffix(strings.TrimPrefix(entry, "history("), ")")
+		ops, _ := in["ops"].(string)
+		want := c02Expected(c.Model([]string{fmt.Sprintf("read hist %d %s %s %s", cfg.Base, cfg.Fmt, c02Hex(text), ops)})[0])
+		for k, it := range want.Objs {
+			if strings.HasPrefix(it, "failed:") {
+				want.Objs[k] = "failed"
+			}
+		}
+		got := c02RunHistTimed(kind, text, ops, plan, cfg, c.OutDir)
+		fmt.Printf("  history ops         : %s on %s\n", ops, kind)
+		if !c02SameObjs(got, want.Objs) {
+			r.fail(c02Fail{entry: entry, cell: cell, aspect: aspect, text: text, cfg: cfg, plan: plan, cutAt: -1,
+				observed: "ops " + ops + " → " + strings.Join(got, " "), expected: strings.Join(want.Objs, " "), from: "model:read.hist", prefixLen: -1, ops: ops})
+		}
 	case strings.HasPrefix(entry, "read-from-string(:start)"):
 		c02RfsStartSweep(c, r)
 	case entry == "ReadString(prefix)":
